@@ -125,6 +125,7 @@ type FuncCtx struct {
 	observed map[string]bool
 	callOrd  map[*ast.CallExpr]int
 	loopEntry *State
+	coveredLoops map[int]bool
 	noMerge  bool
 }
 
